@@ -3825,7 +3825,10 @@ impl Interpreter {
 
         // Try second method
         let second_key = PropertyKey::String(self.intern(second_method));
-        if let Some(JsValue::Object(method)) = obj.borrow().get_property(&second_key)
+        // (look the method up first: the borrow of the receiver must not be held while the
+        // method runs, it may write to its own `this`)
+        let second_prop = obj.borrow().get_property(&second_key);
+        if let Some(JsValue::Object(method)) = second_prop
             && matches!(method.borrow().exotic, ExoticObject::Function(_))
         {
             let result = self.call_function(JsValue::Object(method), value.clone(), &[])?;
